@@ -1,6 +1,8 @@
 package main
 
 import (
+	"strconv"
+	"path"
 	"fmt"
 	"os"
 	"go/types"
@@ -367,6 +369,13 @@ func (s *Session) pureCall(fn *ssa.Function, args []Val, st *State) Val {
 	}
 	mk := func(t types.Type, idx int) Val {
 		v := Val{Typ: t}
+		if fn.String() == "path.Join" {
+			// path.Join of string literals only: the literal it evaluates to
+			if r, ok := s.foldPathJoin(in); ok {
+				v.L = append(v.L, r)
+				return v
+			}
+		}
 		for _, l := range shape(t) {
 			v.L = append(v.L, s.uf(fmt.Sprintf("pure:%s#%d%s%s", fn.String(), idx, l.Path, arity), l.Sort, in...))
 		}
@@ -682,6 +691,25 @@ func (s *Session) applyContract(fr *Frame, c *Contract, fn *ssa.Function, sig *t
 	}
 	s.curOrigin = savedOrigin
 	return packResults(res, vals)
+}
+
+// foldPathJoin: path.Join applied to string literals only is the literal the real function returns.
+func (s *Session) foldPathJoin(in []T) (T, bool) {
+	var parts []string
+	for _, a := range in {
+		if a.Sort != SInt {
+			return T{}, false
+		}
+		n, err := strconv.Atoi(a.S)
+		if err != nil || n < 0 || n >= len(s.strList) {
+			return T{}, false
+		}
+		parts = append(parts, s.strList[n])
+	}
+	if len(parts) == 0 {
+		return T{}, false
+	}
+	return s.strLit(path.Join(parts...)), true
 }
 
 // calleeShort: "(*T).M" -> "M", "F" -> "F"
